@@ -81,6 +81,10 @@ pub fn run(case: &Value, ctx: &Ctx) -> Outcome {
                 let r = cli::sfs(ctx, &["view", "-O", "npy"], Some(&text));
                 out.check(r.ok() && r.stdout == want2, || format!("npy/writer/cli{}", if r.panicked() { "-panic" } else { "" }),
                     || json!({"shape": shape, "code": r.code, "stderr": r.stderr, "stdout_len": r.stdout.len(), "want_len": want2.len()}));
+                // the same file written with -o over an older, LONGER file: header + exactly prod(shape) doubles, nothing else
+                let (f, left) = cli::sfs_onto_stale_file(ctx, &["view", "-O", "npy"], &text, "npy");
+                out.check(f.ok() && !left && f.stdout == want2, || "npy/writer/cli-stale-destination".into(),
+                    || json!({"shape": shape, "code": f.code, "stderr": f.stderr, "file_len": f.stdout.len(), "want_len": want2.len(), "also_on_stdout": left}));
             }
         }
         "reader" => {
